@@ -743,6 +743,15 @@ def install_arrays(reg: Registry):
     def divide(i, a, k, n):
         return i.binop(ast.Div(), a[0], a[1], n)
 
+    def xp_copy(i, a, k, n):
+        assumed(i, "xp.copy / xp.clone: a new array object with the same elements (later in-place updates of the copy do not reach the original)")
+        x = a[0]
+        if isinstance(x, Arr):
+            return Arr(x.n, x.elem, x.at, x.key, dict(x.meta), list(x.facts))
+        return x
+    reg.handlers["xp.copy"] = xp_copy
+    reg.handlers["xp.clone"] = xp_copy
+
     @H("xp.atleast_2d")
     def atleast_2d(i, a, k, n):
         return a[0]
@@ -1133,6 +1142,14 @@ def install_builtins(reg: Registry):
     @H("print")
     def h_print(i, a, k, n):
         return NONE
+
+    @H("slice")
+    def h_slice(i, a, k, n):
+        # slice(None) / slice(a, b[, c]) as an index component: same value as the literal `:` / `a:b:c` inside a tuple index
+        parts = list(a) + [NONE] * (3 - len(a))
+        if len(a) == 1:
+            parts = [NONE, a[0], NONE]
+        return Tup([Str("<slice>")] + parts)
 
     @H("id")
     def h_id(i, a, k, n):
